@@ -334,11 +334,11 @@ def _show_outcome(o):
 
 SELFTEST = [
     dict(id='cpp-shift-constant', file='src/ace_time/BasicZoneProcessor.h',
-         find='uint8_t dayOfWeekShift = (onDayOfWeek - limitDate.dayOfWeek() + 7) % 7;', replace='uint8_t dayOfWeekShift = (onDayOfWeek - limitDate.dayOfWeek() + 6) % 7;', rule='R1'),
+         find='uint8_t dayOfWeekShift = (onDayOfWeek - limitDate.dayOfWeek() + 7) % 7;', replace='uint8_t dayOfWeekShift = (onDayOfWeek - limitDate.dayOfWeek() + 6) % 7;', rule='R5'),
     dict(id='python-last-week-start', file='tools/tzdb/transformer.py', find='            on_day_of_month = days_in_month - 6', replace='            on_day_of_month = days_in_month - 7', rule='R1'),
     dict(id='cpp-prev-month-uses-current-length', file='src/ace_time/BasicZoneProcessor.h',
          find='          month--;\n          uint8_t daysInPrevMonth = LocalDate::daysInMonth(year, month);',
-         replace='          uint8_t daysInPrevMonth = LocalDate::daysInMonth(year, month);\n          month--;', rule='R1'),
+         replace='          uint8_t daysInPrevMonth = LocalDate::daysInMonth(year, month);\n          month--;', rule='R5'),
     dict(id='same-edit-on-both-sides-silent', edits=[
         dict(file='src/ace_time/BasicZoneProcessor.h', find='uint8_t dayOfWeekShift = (onDayOfWeek - limitDate.dayOfWeek() + 7) % 7;',
              replace='uint8_t dayOfWeekShift = (onDayOfWeek - limitDate.dayOfWeek() + 14) % 7;'),
